@@ -71,7 +71,7 @@ var (
 func biTo(c *ctx, n *big.Int) []byte {
 	orig := new(big.Int).Set(n)
 	var enc []byte
-	obs := hx.Safe(func() string {
+	obs := c.safe(func() string {
 		enc = bigint.ToBytes(n)
 		return hx.Hex(enc)
 	})
@@ -107,7 +107,7 @@ func biFrom(c *ctx, b []byte) {
 		b = []byte{}
 	}
 	var v *big.Int
-	obs := hx.Safe(func() string {
+	obs := c.safe(func() string {
 		v = bigint.FromBytes(append([]byte{}, b...))
 		return v.String()
 	})
